@@ -1,12 +1,16 @@
 package props
 
 import (
+	"bytes"
 	"crypto/sha256"
 	"fmt"
 	"os"
+	"os/exec"
+	"path/filepath"
 	"sort"
 	"strconv"
 	"strings"
+	"sync"
 	"time"
 
 	psatoken "github.com/veraison/psatoken"
@@ -351,7 +355,10 @@ func c17Worker(r *evid.Run, w, n int) {
 	ops := c17Ops()
 	th := thorough(r)
 	scs := c17Scenarios(len(ops), th)
-	core := map[int]bool{2: true, 5: true, 8: true, 11: true, 14: true, 15: true, 16: true, 19: true, 21: true, 22: true, 25: true}
+	core := map[int]bool{2: true, 5: true, 14: true, 15: true, 19: true, 21: true, 22: true, 25: true}
+	if th {
+		core = map[int]bool{2: true, 5: true, 8: true, 11: true, 14: true, 15: true, 16: true, 19: true, 21: true, 22: true, 25: true}
+	}
 	boundFor := func(sc c17Scenario) int {
 		allCore := true
 		for _, o := range sc.ops {
@@ -410,6 +417,97 @@ func c17Worker(r *evid.Run, w, n int) {
 	r.Set("schedule_outcomes", oc)
 }
 
+// RacePass runs the same operation bodies free-running (real goroutines, uninstrumented build made with
+// -race). It is a SECONDARY check: the only thing here that looks inside the dependencies. The race
+// detector prints its reports to stderr; the parent parses them.
+func RacePass() int {
+	registerStandardExt()
+	ops := c17Ops()
+	fx := newC17Fix()
+	base := make([]string, len(ops))
+	for i := range ops {
+		base[i] = ops[i].run(fx)
+	}
+	rounds := 6
+	var wg sync.WaitGroup
+	bad := make(chan string, 1024)
+	for g := 0; g < 32; g++ {
+		wg.Add(1)
+		go func(g int) {
+			defer wg.Done()
+			for r := 0; r < rounds; r++ {
+				for k := range ops {
+					i := (k*7 + g*3 + r) % len(ops)
+					if got := ops[i].run(fx); got != base[i] {
+						select {
+						case bad <- fmt.Sprintf("%s: concurrent result %q, sequential %q", ops[i].name, clipS(got), clipS(base[i])):
+						default:
+						}
+					}
+				}
+			}
+		}(g)
+	}
+	wg.Wait()
+	close(bad)
+	n := 0
+	for b := range bad {
+		fmt.Println("RACEPASS-RESULT-DIFFERS " + b)
+		n++
+	}
+	fmt.Printf("RACEPASS done goroutines=32 rounds=%d operations=%d result_mismatches=%d\n", rounds, len(ops), n)
+	return 0
+}
+
+// runRacePass builds nothing: run.sh built bin/vcheck-race for the thorough tier.
+func runRacePass(r *evid.Run) {
+	bin := filepath.Join(evid.Root, "bin", "vcheck-race")
+	if _, err := os.Stat(bin); err != nil {
+		r.Set("race_detector_pass", "not run (bin/vcheck-race not built)")
+		return
+	}
+	cmd := exec.Command(bin, "racepass")
+	cmd.Env = append(os.Environ(), "GORACE=halt_on_error=0 exitcode=0 history_size=3")
+	var out, errb bytes.Buffer
+	cmd.Stdout, cmd.Stderr = &out, &errb
+	t0 := time.Now()
+	err := cmd.Run()
+	reports := strings.Split(errb.String(), "WARNING: DATA RACE")
+	nrep := 0
+	for _, rep := range reports[1:] {
+		// attribute to the first psatoken (non-harness) frame
+		frame := ""
+		for _, l := range strings.Split(rep, "\n") {
+			l = strings.TrimSpace(l)
+			if strings.HasPrefix(l, "github.com/veraison/psatoken") && !strings.Contains(l, "verifrt") {
+				frame = l
+				if i := strings.Index(frame, "("); i > 0 {
+					frame = frame[:i]
+				}
+				break
+			}
+		}
+		if frame == "" {
+			frame = "outside-psatoken"
+		}
+		nrep++
+		r.Violation(evid.Replay{Scenario: "c17.racepass", Kind: "schedule", Sig: "C17:race-detector:" + frame, Detail: "the Go race detector reports a data race in a free-running pass of the C17 operation bodies (32 goroutines)\n" + clipS(rep)})
+	}
+	for _, l := range strings.Split(out.String(), "\n") {
+		if strings.HasPrefix(l, "RACEPASS-RESULT-DIFFERS ") {
+			r.Violation(evid.Replay{Scenario: "c17.racepass", Kind: "schedule", Sig: "C17:racepass-result-differs:" + strings.SplitN(strings.TrimPrefix(l, "RACEPASS-RESULT-DIFFERS "), ":", 2)[0], Detail: l})
+		}
+	}
+	st := "completed"
+	if err != nil || !strings.Contains(out.String(), "RACEPASS done") {
+		st = fmt.Sprintf("did not complete: %v: %s", err, lastLines(errb.String(), 4))
+		if nrep == 0 {
+			r.HarnessError("race-detector pass " + st)
+		}
+	}
+	r.Set("race_detector_pass", map[string]any{"status": st, "reports": nrep, "wall_s": time.Since(t0).Seconds(), "note": "secondary, free-running, uninstrumented -race build; not the deciding step"})
+}
+
 func init() {
 	Workers["C17"] = c17Worker
 	Checks["C17"] = func(r *evid.Run) {
@@ -439,6 +537,7 @@ func init() {
 		ops := c17Ops()
 		th := thorough(r)
 		scs := c17Scenarios(len(ops), th)
+		runRacePass(r)
 		for k, v := range instrInfo() {
 			r.Set(k, v)
 		}
@@ -446,7 +545,7 @@ func init() {
 			r.Set("exhaustive", false)
 			appendNote(r, "caps_hit", fmt.Sprintf("%d of %d scenarios completed before the internal deadline", r.Get("scenarios_completed"), len(scs)))
 		}
-		bound := map[bool]string{false: "1 (2 for pairs within an 11-operation core)", true: "2 (3 for pairs within the core; 2 for triples)"}[th]
+		bound := map[bool]string{false: "1 (2 for pairs within an 8-operation core)", true: "2 (3 for pairs within an 11-operation core; 2 for triples)"}[th]
 		r.Set("rule", fmt.Sprintf("controlled cooperative scheduler over the instrumented build: %d operations on shared fixtures (setter-built, decoded, invalid and extension claims-sets, decoded and signing Evidence) and on private objects; every unordered pair of operations including each operation with itself (%d scenarios%s) run as 2-3 threads; ALL interleavings at the instrumented stores / package-level accesses / sync operations with at most %s preemptions; per schedule: no write-write or read-write race without happens-before, no store into a shared fixture, no package-level write, each thread's result equals its sequential result, deep snapshots of all fixtures and of the register unchanged, no deadlock; states = scenarios, evaluations = schedules", len(ops), len(ops)*(len(ops)+1)/2, map[bool]string{false: "", true: " + 120 triples over an 8-operation core"}[th], bound))
 		r.Set("distinct_nontrivial", max64(r.Get("schedules")-1, 0))
 		r.Set("bounds", map[string]any{"threads": "2 (pairs), 3 (triples, thorough)", "preemption_bound": bound, "operations": len(ops), "scenarios": len(scs)})
